@@ -340,7 +340,7 @@ fn model_phase(args: &Args) -> Report {
          Close-on-exec is tracked per descriptor (socket()/accept4() flags, fcntl F_SETFD): for every obtaining variant x {{no child, a model fork+exec of a long-lived child between \
          obtaining and dropping the stream (exec closes exactly the child's CLOEXEC copies)}} the model peer must read end-of-stream after the drop (peer-sees-no-eof-after-drop). \
          Unix connect with a FULL accept queue (as witnessed: EAGAIN on every attempt until the peer accepts, the unconnected socket polls writable at once) with the peer's accept as an \
-         enumerated action; time-outs include Duration::MAX (> i64::MAX s: outcome class only); a third process winning the race after a wake-up is an outcome class only.",
+         enumerated action; an EINTR answer to a timed ppoll comes after an elapsed time from {{half, 0, 1 ns, limit-1 ns}} (free choice) and the remaining time is written back through the time-out pointer on every return; within one wait every later ppoll may only ask for what is left of the first one's limit (timeout-restarted-after-EINTR); time-outs include Duration::MAX (> i64::MAX s: outcome class only); a third process winning the race after a wake-up is an outcome class only.",
         g.caps, g.max_len, g.timeouts, budget
     );
     r.bound("deviation_budget", budget);
@@ -388,6 +388,13 @@ fn replay(v: &Value, r: &mut Report) {
         "real-unix-connect-full-backlog" => {
             println!("replaying on the REAL kernel: UnixStream::connect to a listener whose accept queue is full, the peer accepts 200 ms later");
             conform::real_unix_connect_full_backlog(r);
+            for s in &r.samples {
+                println!("  observed: {s}");
+            }
+        }
+        "real-timed-accept-under-signals" => {
+            println!("replaying on the REAL kernel: accept_with_timeout(100 ms) under a 10 ms SIGALRM interval timer");
+            conform::real_timed_accept_under_signals(r);
             for s in &r.samples {
                 println!("  observed: {s}");
             }
